@@ -54,21 +54,31 @@ def flat_and(t):
     return [t]
 
 
+_POSITIVE = {'not in': 'in', '!=': '==', 'is not': 'is'}
+
+
 def true_atoms(conds):
-    """atomic conditions known true on the path (conjunctions flattened, `not` unwrapped)."""
+    """elementary tests of the path in positive spelling: (`x not in T`, False) reads (`x in T`, True), `not c` flips,
+    true conjunctions are flattened (the walker already records compound tests member by member)."""
     out = []
+
+    def add(c, pol):
+        if c[0] == 'unop' and c[1] == 'not':
+            return add(c[2], not pol)
+        if c[0] == 'bool' and c[1] == 'and' and pol:
+            for x in c[2]:
+                add(x, True)
+            return
+        if c[0] == 'bool' and c[1] == 'or' and not pol:
+            for x in c[2]:
+                add(x, False)
+            return
+        if c[0] == 'cmp' and c[1] in _POSITIVE:
+            out.append((('cmp', _POSITIVE[c[1]], c[2], c[3]), not pol))
+            return
+        out.append((c, pol))
     for c, pol in conds:
-        if pol:
-            for a in flat_and(c):
-                if a[0] == 'unop' and a[1] == 'not':
-                    out.append((a[2], False))
-                else:
-                    out.append((a, True))
-        else:
-            if c[0] == 'unop' and c[1] == 'not':
-                out += [(a, True) for a in flat_and(c[2])]
-            elif not (c[0] == 'bool' and c[1] == 'and'):
-                out.append((c, False))
+        add(c, pol)
     return out
 
 
